@@ -19,9 +19,10 @@ import sys
 import time
 
 VERIF = os.path.dirname(os.path.dirname(os.path.abspath(__file__)))
-WT = "/tmp/seedrun"
-TGT = "/tmp/seedrun-target"
-MUT = os.path.join(VERIF, ".cache-mut")
+TAG = os.environ.get("SEEDRUN_TAG", "")      # concurrent runs use different tags (own worktree, cargo target and cache copy)
+WT = "/tmp/seedrun" + TAG
+TGT = "/tmp/seedrun-target" + TAG
+MUT = os.path.join(VERIF, ".cache-mut" + TAG)
 
 
 def sh(cmd, cwd=None, env=None, timeout=1800):
@@ -94,6 +95,7 @@ def main():
         for c in checks:
             t0 = time.time()
             rc, out = sh([os.path.join(VERIF, "check"), c], cwd=VERIF, env=cenv, timeout=3000)
+            open(os.path.join(MUT, "last_%s.log" % c), "w").write(out)
             vio = [l for l in out.splitlines() if l.startswith(("VIOLATION", "INTERNAL-ERROR", "OK "))]
             det = [l.strip() for l in out.splitlines() if "violation detail" in l][:3]
             meta["checks"][c] = {"rc": rc, "line": vio[-1] if vio else out[-300:], "detail": det, "wall_s": round(time.time() - t0, 1)}
